@@ -42,6 +42,11 @@ typedef struct {
 } cscript;
 #define MAXCS 6
 static cscript CS[MAXCS];
+/* the common runner allows 120 s per case; a client that spins without touching the socket layer (so that the step budget on socket
+ * calls cannot see it) is cut off earlier: no schedule in this driver needs more than a few milliseconds */
+#define CASE_SECONDS 15
+static int case_begin_ok(int r) { if (r) alarm(CASE_SECONDS); return r; }
+#define CASE_BEGIN(...) case_begin_ok(vf_case_begin(__VA_ARGS__))
 static long hook_calls, hook_budget;
 static int spin;
 static sn_conn *cur_conn;
@@ -503,7 +508,7 @@ static void rx_short_stream(const int *kinds, int nk) {
 			int nwb;
 			if (a > 0 && strchr(code, '2') == NULL) continue;                       /* already covered by the binary enumeration */
 			if (a == 2 && strchr(code, '1') == NULL) continue;
-			if (!vf_case_begin("rx:k%s:t%s", stream_name(kinds, nk), n > 1 ? code : "-")) continue;
+			if (!CASE_BEGIN("rx:k%s:t%s", stream_name(kinds, nk), n > 1 ? code : "-")) continue;
 			env_install();
 			vb_init(&st);
 			build_stream(&st, kinds, nk);
@@ -536,8 +541,8 @@ static int interesting_offsets(const int *kinds, int nk, size_t *out, int cap) {
 static void rx_cut_case(const int *kinds, int nk, size_t a, size_t b, int wb) {
 	vbuf st;
 	int nwb = 0;
-	if (b) { if (!vf_case_begin("rx:k%s:cut%zu,%zu:wb%d", stream_name(kinds, nk), a, b, wb)) return; }
-	else if (!vf_case_begin("rx:k%s:cut%zu:wb%d", stream_name(kinds, nk), a, wb)) return;
+	if (b) { if (!CASE_BEGIN("rx:k%s:cut%zu,%zu:wb%d", stream_name(kinds, nk), a, b, wb)) return; }
+	else if (!CASE_BEGIN("rx:k%s:cut%zu:wb%d", stream_name(kinds, nk), a, wb)) return;
 	env_install();
 	vb_init(&st);
 	build_stream(&st, kinds, nk);
@@ -602,7 +607,7 @@ static void part_rxc(void) {
 				vbuf st, whole, st2;
 				int kinds[3], nk = 0, k2[2], nk2 = 0;
 				if (wb && plen == 0) continue;
-				if (!vf_case_begin("rxc:f%d:p%d.%zu:s%d:%s:wb%d", f, PART[p], plen, s, ANAME[act], wb)) continue;
+				if (!CASE_BEGIN("rxc:f%d:p%d.%zu:s%d:%s:wb%d", f, PART[p], plen, s, ANAME[act], wb)) continue;
 				SAMPLE(1, "%s: whole PDUs + %zu bytes of one more, then peer %s; next request on a fresh connection with its own stream", vf_case_name(), plen, ANAME[act]);
 				env_install();
 				if (FIRST[f][0] >= 0) kinds[nk++] = FIRST[f][0];
@@ -684,7 +689,7 @@ static void part_tx(void) {
 			for (wb0 = 0; wb0 < 2; wb0++) {
 				memset(code, '0', sizeof code); code[total - 1] = 0;
 				do {
-					if (!vf_case_begin("tx:s%d.%d.%d:w%d:t%s:lim%d", SETS[s][0], SETS[s][1], SETS[s][2], wb0, total > 1 ? code : "-", lim ? 1 : 100)) continue;
+					if (!CASE_BEGIN("tx:s%d.%d.%d:w%d:t%s:lim%d", SETS[s][0], SETS[s][1], SETS[s][2], wb0, total > 1 ? code : "-", lim ? 1 : 100)) continue;
 					env_install();
 					tx_exec(SETS[s], ns, code, wb0, lim ? 1 : 100);
 					vf_case_end(1);
@@ -713,7 +718,7 @@ static void part_txf(void) {
 			size_t j;
 			long steps = 0;
 			if (ACTS[ai] == A_CLOSE && off == 0) continue;
-			if (!vf_case_begin("txf:s%d.%d.%d:%s:off%zu", SETS[s][0], SETS[s][1], SETS[s][2], ANAME[ACTS[ai]], off)) continue;
+			if (!CASE_BEGIN("txf:s%d.%d.%d:%s:off%zu", SETS[s][0], SETS[s][1], SETS[s][2], ANAME[ACTS[ai]], off)) continue;
 			SAMPLE(2, "%s: tiny requests, connection lost at output offset %zu (%s); the rest must travel whole on a fresh connection", vf_case_name(), off, ANAME[ACTS[ai]]);
 			env_install();
 			req_reset();
@@ -940,8 +945,8 @@ static int req_boundary_near(size_t x, int n, size_t d) {
 
 static void e2e_rx_case(int n, size_t a, size_t b, int wb) {
 	scen_t sc = {n, 0, 0, 1, 40, "e2e:rx"};
-	if (b) { if (!vf_case_begin("e2e:rx:n%d:cut%zu,%zu:wb%d", n, a, b, wb)) return; }
-	else if (!vf_case_begin("e2e:rx:n%d:cut%zu:wb%d", n, a, wb)) return;
+	if (b) { if (!CASE_BEGIN("e2e:rx:n%d:cut%zu,%zu:wb%d", n, a, b, wb)) return; }
+	else if (!CASE_BEGIN("e2e:rx:n%d:cut%zu:wb%d", n, a, wb)) return;
 	env_install();
 	ev_add(&CS[0].rx, a, wb ? A_WB : A_CUT, 0);
 	if (b) ev_add(&CS[0].rx, b, wb ? A_WB : A_CUT, 0);
@@ -950,8 +955,8 @@ static void e2e_rx_case(int n, size_t a, size_t b, int wb) {
 }
 static void e2e_tx_case(int n, int hold, size_t a, size_t b, int wb) {
 	scen_t sc = {n, 0, hold, 1, 40, "e2e:tx"};
-	if (b) { if (!vf_case_begin("e2e:tx:n%d:hold%d:cut%zu,%zu:wb%d", n, hold, a, b, wb)) return; }
-	else if (!vf_case_begin("e2e:tx:n%d:hold%d:cut%zu:wb%d", n, hold, a, wb)) return;
+	if (b) { if (!CASE_BEGIN("e2e:tx:n%d:hold%d:cut%zu,%zu:wb%d", n, hold, a, b, wb)) return; }
+	else if (!CASE_BEGIN("e2e:tx:n%d:hold%d:cut%zu:wb%d", n, hold, a, wb)) return;
 	SAMPLE(6, "%s: async service, %d requests, partial sends cut at output offsets %zu/%zu, would-block mode %d, server %s", vf_case_name(), n, a, b, wb, hold ? "answers after the last request" : "answers each request at once");
 	env_install();
 	/* wb: 0 short counts only, 1 would-block at every cut, 2 would-block twice at the first cut */
@@ -1007,7 +1012,7 @@ static void part_flt(void) {
 		scen_t sc = {n1, 2, 0, 1, 50, NULL};
 		char cls[48];
 		if (arm == 0 && off != 0) continue;            /* later offsets are reached only after the requests were written anyway */
-		if (!vf_case_begin("flt:rx:%s:n%d:off%zu:arm%d", ANAME[RXACT[ai]], n1, off, arm)) continue;
+		if (!CASE_BEGIN("flt:rx:%s:n%d:off%zu:arm%d", ANAME[RXACT[ai]], n1, off, arm)) continue;
 		SAMPLE(4, "%s: async service, %d outstanding requests, recv answers %s at offset %zu of the response stream, then 2 later requests", vf_case_name(), n1, ANAME[RXACT[ai]], off);
 		env_install();
 		snprintf(cls, sizeof cls, "flt:rx:%s", ANAME[RXACT[ai]]); sc.cls = cls;
@@ -1020,7 +1025,7 @@ static void part_flt(void) {
 		scen_t sc = {n1, 2, hold, 1, 50, NULL};
 		char cls[48];
 		if (n1 == 1 && hold) continue;
-		if (!vf_case_begin("flt:tx:%s:n%d:hold%d:off%zu", ANAME[TXACT[ai]], n1, hold, off)) continue;
+		if (!CASE_BEGIN("flt:tx:%s:n%d:hold%d:off%zu", ANAME[TXACT[ai]], n1, hold, off)) continue;
 		SAMPLE(3, "%s: async service, %d real requests, send answers %s at output offset %zu, then 2 later requests", vf_case_name(), n1, ANAME[TXACT[ai]], off);
 		env_install();
 		snprintf(cls, sizeof cls, "flt:tx:%s", ANAME[TXACT[ai]]); sc.cls = cls;
@@ -1033,7 +1038,7 @@ static void part_flt(void) {
 		scen_t sc = {n1, 2, 0, 1, 50, NULL};
 		char cls[48];
 		if (off == RO[1]) continue;
-		if (!vf_case_begin("flt:mid:%s:n%d:off%zu", ANAME[RXACT[ai]], n1, off)) continue;
+		if (!CASE_BEGIN("flt:mid:%s:n%d:off%zu", ANAME[RXACT[ai]], n1, off)) continue;
 		env_install();
 		snprintf(cls, sizeof cls, "flt:mid:%s", ANAME[RXACT[ai]]); sc.cls = cls;
 		ev_add(&CS[0].tx, off, A_WB, 0);
@@ -1052,7 +1057,7 @@ static void part_flt(void) {
 		if (!(m == 5 || m == 6) && k > 0) continue;
 		if (m == 2 && clock == 0) continue;                                  /* a timeout needs a moving clock */
 		if ((m == 5 || m == 6) && clock == 1 && KS[k] > 9) continue;          /* slower than the configured timeouts: covered by "never" */
-		if (!vf_case_begin("flt:conn:%s%d:n%d:clk%d", MN[m], param, n1, clock)) continue;
+		if (!CASE_BEGIN("flt:conn:%s%d:n%d:clk%d", MN[m], param, n1, clock)) continue;
 		SAMPLE(5, "%s: connection establishment answer '%s' (parameter %d), virtual clock %s", vf_case_name(), MN[m], param, clock ? "advances 1 s per idle round" : "frozen");
 		env_install();
 		snprintf(cls, sizeof cls, "flt:conn:%s", MN[m]); sc.cls = cls;
@@ -1170,7 +1175,7 @@ static void part_blk(void) {
 	size_t a, b;
 	int pre, ai;
 	for (pre = 0; pre < 2; pre++) for (a = 1; a < BR_SZ; a++) {
-		if (!vf_case_begin("blk:tx:cut%zu:eintr%d", a, pre)) continue;
+		if (!CASE_BEGIN("blk:tx:cut%zu:eintr%d", a, pre)) continue;
 		env_install();
 		ev_add(&CS[0].tx, a, pre ? A_EINTR : A_CUT, 0);
 		blk_exec("blk:tx", X_MUST_OK);
@@ -1178,14 +1183,14 @@ static void part_blk(void) {
 	}
 	for (a = 1; a < BR_SZ; a++) for (b = a + 1; b < BR_SZ; b++) {
 		if (!VF_THOROUGH && !(a % 9 == 1 && b % 7 == 3)) continue;
-		if (!vf_case_begin("blk:tx:cut%zu,%zu", a, b)) continue;
+		if (!CASE_BEGIN("blk:tx:cut%zu,%zu", a, b)) continue;
 		env_install();
 		ev_add(&CS[0].tx, a, A_CUT, 0); ev_add(&CS[0].tx, b, A_CUT, 0);
 		blk_exec("blk:tx", X_MUST_OK);
 		vf_case_end(1);
 	}
 	for (pre = 0; pre < 2; pre++) for (a = 1; a < BP_SZ; a++) {
-		if (!vf_case_begin("blk:rx:cut%zu:eintr%d", a, pre)) continue;
+		if (!CASE_BEGIN("blk:rx:cut%zu:eintr%d", a, pre)) continue;
 		env_install();
 		ev_add(&CS[0].rx, a, pre ? A_EINTR : A_CUT, 0);
 		blk_exec("blk:rx", X_MUST_OK);
@@ -1193,7 +1198,7 @@ static void part_blk(void) {
 	}
 	for (a = 1; a < BP_SZ; a++) for (b = a + 1; b < BP_SZ; b++) {
 		if (!VF_THOROUGH && !((a < 7 && b < 9) || (a % 5 == 1 && b % 7 == 3))) continue;
-		if (!vf_case_begin("blk:rx:cut%zu,%zu", a, b)) continue;
+		if (!CASE_BEGIN("blk:rx:cut%zu,%zu", a, b)) continue;
 		env_install();
 		ev_add(&CS[0].rx, a, A_CUT, 0); ev_add(&CS[0].rx, b, A_CUT, 0);
 		blk_exec("blk:rx", X_MUST_OK);
@@ -1202,7 +1207,7 @@ static void part_blk(void) {
 	for (ai = 0; ai < 4; ai++) for (a = 0; a <= BP_SZ; a++) {
 		char cls[40];
 		if (a == BP_SZ && RXACT[ai] != A_CLOSE) continue;
-		if (!vf_case_begin("blk:rxf:%s:off%zu", ANAME[RXACT[ai]], a)) continue;
+		if (!CASE_BEGIN("blk:rxf:%s:off%zu", ANAME[RXACT[ai]], a)) continue;
 		SAMPLE(7, "%s: blocking client, recv answers %s after %zu of %zu response bytes; then a second request", vf_case_name(), ANAME[RXACT[ai]], a, BP_SZ);
 		env_install();
 		snprintf(cls, sizeof cls, "blk:rxf:%s", ANAME[RXACT[ai]]);
@@ -1212,7 +1217,7 @@ static void part_blk(void) {
 	}
 	for (ai = 0; ai < 3; ai++) for (a = 0; a < BR_SZ; a++) {
 		char cls[40];
-		if (!vf_case_begin("blk:txf:%s:off%zu", ANAME[TXACT[ai]], a)) continue;
+		if (!CASE_BEGIN("blk:txf:%s:off%zu", ANAME[TXACT[ai]], a)) continue;
 		env_install();
 		snprintf(cls, sizeof cls, "blk:txf:%s", ANAME[TXACT[ai]]);
 		ev_add(&CS[0].tx, a, TXACT[ai], 0);
@@ -1223,7 +1228,7 @@ static void part_blk(void) {
 		static const char *MN[] = {"refused", "eintr", "timedout"};
 		static const int MM[] = {CM_REFUSED, CM_EINTR, CM_NEVER};
 		char cls[40];
-		if (!vf_case_begin("blk:conn:%s", MN[ai])) continue;
+		if (!CASE_BEGIN("blk:conn:%s", MN[ai])) continue;
 		env_install();
 		snprintf(cls, sizeof cls, "blk:conn:%s", MN[ai]);
 		CS[0].cmode = MM[ai];
@@ -1234,14 +1239,14 @@ static void part_blk(void) {
 
 /* the default schedule (everything delivered / accepted at once) inside a case, so that its failure is a reported violation */
 static void part_cal(void) {
-	if (vf_case_begin("cal:async")) {
+	if (CASE_BEGIN("cal:async")) {
 		scen_t sc = {3, 2, 0, 1, 40, "cal:async"};
 		env_install();
 		scenario(&sc);
 		if (!cal_async_ok) vf_fail("default-schedule-failed", "asynchronous service: %d requests under the default schedule (every socket call succeeds completely) did not all complete with their own responses on one connection", NCAL);
 		vf_case_end(1);
 	}
-	if (vf_case_begin("cal:blk")) {
+	if (CASE_BEGIN("cal:blk")) {
 		env_install();
 		blk_exec("cal:blk", X_MUST_OK);
 		if (!cal_blk_ok) vf_fail("default-schedule-failed", "blocking client: signing under the default schedule failed");
